@@ -11,7 +11,11 @@
 (* carries the initial state, which pairs satisfy volatility^2 = variance.   *)
 EXTENDS Integers, Sequences, FiniteSets, TLC, Json
 
-CONSTANTS Kinds, NPaths, Steps, MaxDepth
+CONSTANTS Kinds, NPaths, HalfSteps, MaxDepth
+
+\* The horizon is given in HALF steps (time_horizon = h2 * dt / 2), so that horizons between two grid points occur: the series then
+\* has Ceil(time_horizon / dt) + 1 time points (Grid.tla), the same number for every buffer.
+StepsOf(h2) == (h2 + 1) \div 2 + 1
 
 Buffers(kd) == CASE kd \in {"brownian", "cir", "vasicek", "merton", "kou"} -> {"spot"}
                  [] kd \in {"heston", "rough_bergomi"} -> {"spot", "variance"}
@@ -33,18 +37,20 @@ Init == /\ kind \in Kinds
         /\ bufs = [b \in Buffers(kind) |-> [n |-> 0, t |-> 0, ver |-> 0]]
         /\ sim = 0 /\ hist = <<>>
 
-Simulate(n, t, custom) ==
+Simulate(n, h2, custom) ==
   /\ Len(hist) < MaxDepth
   /\ sim' = sim + 1
-  /\ bufs' = [b \in Buffers(kind) |-> [n |-> n, t |-> t, ver |-> sim + 1]]
-  /\ hist' = Append(hist, [n |-> n, t |-> t, custom |-> custom, post |-> bufs'])
+  /\ bufs' = [b \in Buffers(kind) |-> [n |-> n, t |-> StepsOf(h2), ver |-> sim + 1]]
+  /\ hist' = Append(hist, [n |-> n, h2 |-> h2, t |-> StepsOf(h2), custom |-> custom, post |-> bufs'])
   /\ UNCHANGED kind
-Next == \E n \in NPaths, t \in Steps, c \in BOOLEAN : Simulate(n, t, c)
+Next == \E n \in NPaths, h2 \in HalfSteps, c \in BOOLEAN : Simulate(n, h2, c)
 Spec == Init /\ [][Next]_vars
 
 UniformShape == \A a, b \in Buffers(kind) : bufs[a].n = bufs[b].n /\ bufs[a].t = bufs[b].t /\ bufs[a].ver = bufs[b].ver
 SimulateReplacesAll == [][sim' # sim => \A b \in Buffers(kind) : bufs'[b].ver = sim' /\ bufs'[b].ver # bufs[b].ver]_vars
 NothingSurvives == \A b \in Buffers(kind) : bufs[b].ver = sim
+\* a horizon on a grid point k*dt gives k+1 points, one between k*dt and (k+1)*dt gives k+2
+StepsCoverHorizon == \A h2 \in HalfSteps : 2 * (StepsOf(h2) - 1) >= h2 /\ 2 * (StepsOf(h2) - 2) < h2
 
 Emit == (Len(hist) = MaxDepth) =>
           PrintT(ToJson([kind |-> kind, buffers |-> [b \in Buffers(kind) |-> Sign(kind, b)], arity |-> InitArity(kind), hist |-> hist]))
